@@ -580,10 +580,11 @@ def judge(sc: Dict[str, Any], obs: Dict[str, Any], ref: Dict[str, Any]) -> List[
             if obs["status"] == 0:
                 out.append((f"exit0-on-error@{phase}", f"exit status 0 although {why}"))
             elif not sc["debug"]:
-                # "one line": ends with exactly one newline and holds nothing any
-                # line-aware consumer would split (CR, FF, VT, NEL, U+2028/9 included)
-                body = stderr[:-1] if stderr.endswith("\n") else None
-                if body is None or not body.strip() or len(body.splitlines()) != 1:
+                # "one line": non-blank text holding no line break (LF, CR) other than one line
+                # terminator at its end.  (Not demanded: the terminator itself, nor the absence of
+                # the separators only str.splitlines() knows -- FF, VT, NEL, U+2028/9.)
+                body = stderr[:-2] if stderr.endswith("\r\n") else stderr[:-1] if stderr.endswith("\n") else stderr
+                if not body.strip() or "\n" in body or "\r" in body:
                     out.append((f"stderr-not-one-line@{phase}", f"stderr is {stderr[:200]!r}; expected exactly one non-empty line for {why}"))
         # nothing may be written: the output is empty -- or, for an output file that existed before
         # the run, still exactly what it was (a tool that does not clobber it on failure is fine)
